@@ -730,6 +730,9 @@ class LoadMixin(AbstractLoaderGenerator, BaseLoadHook):
             # Check for Custom Patterns for date / time / datetime
             for extra in field_extras:
                 if isinstance(extra, PatternBase):
+                    # the pattern applies to this annotation only: do not
+                    # leak it to the fields processed afterwards
+                    extras = extras.copy()
                     extras['pattern'] = extra
 
         elif is_typed_dict_type_qualifier(origin):
